@@ -314,6 +314,47 @@ def io_mappings_encoded(chk: Check, rule: str) -> None:
         chk.ob(rule, pl, ok, f'{k} is restored through decode_input_args', kind=f'decoded:{k}')
 
 
+def falsy_values_survive(chk: Check, rule: str) -> None:
+    """A field may be left out of the bundle only in the case the loader fills in again: what load_instance_state assigns when the key is absent must be what the
+    field held whenever save skipped it.  ``if self.inputs:`` skips an EMPTY mapping, the loader restores "absent" as None -- a process started without inputs comes
+    back with ``inputs is None`` (a later ``'x' in self.inputs`` raises).  Skipping on ``is not None`` with a None default, or on truthiness with an empty-container
+    default, are the two consistent pairs."""
+    prog = chk.prog
+    ps = prog.view(prog.func('processes.Process.save_instance_state'))
+    pl = prog.view(prog.func('processes.Process.load_instance_state'))
+    fs = chk.ctx.facts.analyse(ps)
+    # load side: key -> (attribute, value assigned when the key is absent)
+    absent = {}
+    for t in [x for x in ast.walk(pl.node) if isinstance(x, ast.Try)]:
+        hs = [h for h in t.handlers if h.type is not None and 'KeyError' in norm(h.type)]
+        if not hs:
+            continue
+        keys = [prog.fold(pl.module, x.slice) for b in t.body for x in ast.walk(b) if isinstance(x, ast.Subscript) and norm(x.value) == pl.params[1]]
+        tg = [norm(a.targets[0]) for b in t.body for a in ast.walk(b) if isinstance(a, ast.Assign) and is_self_attr(a.targets[0])]
+        df = [(norm(a.targets[0]), a.value) for h in hs for b in h.body for a in ast.walk(b) if isinstance(a, ast.Assign) and is_self_attr(a.targets[0])]
+        for k in keys:
+            for a_, d_ in df:
+                if a_ in tg and isinstance(k, str):
+                    absent[k] = (a_, d_)
+    n = 0
+    for m in fs.cfg.nodes:
+        a_ = m.ast
+        if not (m.kind == 'stmt' and isinstance(a_, ast.Assign) and isinstance(a_.targets[0], ast.Subscript) and norm(a_.targets[0].value) == ps.params[1]):
+            continue
+        k = prog.fold(ps.module, a_.targets[0].slice)
+        if k not in absent:
+            continue
+        attr, dflt = absent[k]
+        n += 1
+        facts = fs.at(m)
+        truthy_guard = ('T', attr) in facts
+        none_default = isinstance(dflt, ast.Constant) and dflt.value is None
+        ok = not (truthy_guard and none_default)
+        chk.ob(rule, ps, ok, f'{k}: saved ' + ('only when truthy' if truthy_guard else 'whenever it is not None / always') + f', restored as {norm(dflt)} when absent'
+               + ('' if ok else f' -- an empty {attr.split(".")[-1].strip("_")} is skipped on save and comes back as None'), node=a_, kind=f'absent-means-the-same:{k}')
+    chk.floor(f'{rule}:optional-keys', n, 2)
+
+
 def run(chk: Check) -> None:
     prog = chk.prog
     ctx = chk.ctx
@@ -444,6 +485,7 @@ def run(chk: Check) -> None:
     # whoever calls it (recreate_from and load() included), else a member that was saved is silently left out of the rebuilt object (shared with C19)
     from .c19 import persist_hook_before_members
     persist_hook_before_members(chk, 'SYM-key-agreement')
+    falsy_values_survive(chk, 'SYM-key-agreement')
     stored_exceptions_roundtrip(chk)
     saved_mappings_restored_whole(chk)
     load_is_deterministic(chk)
